@@ -327,7 +327,30 @@ class Big(cache.Recursion, length=1):
             index += 1
 
 
-RECS = dict(Fib=Fib, Count=Count, Tri=Tri, Held=Held, Big=Big)
+class Free(cache.Recursion, length=0):
+    '''recursion of length 0: every item is a function of its index alone and resume is always handed an EMPTY history, also when it resumes after cached items'''
+
+    def __init__(self, start):
+        self.start = start
+
+    def resume_index(self, history, index):
+        if HOOK is not None:
+            HOOK('history', ('Free', self.start, index, tuple(history)))
+        return self._gen(list(history), index)
+
+    def _gen(self, history, index):
+        while True:
+            _enter(f'Free/{self.start}/{index}')
+            try:
+                value = self.start + 3 * index + sum(history)   # history is empty by contract
+                treelog.info('free', index, value)
+            finally:
+                _leave(f'Free/{self.start}/{index}')
+            yield value
+            index += 1
+
+
+RECS = dict(Fib=Fib, Count=Count, Tri=Tri, Held=Held, Big=Big, Free=Free)
 
 
 def model_sequence(name, args, m):
@@ -349,6 +372,9 @@ def model_sequence(name, args, m):
     elif name == 'Held':
         for i in range(m):
             out.append(float(args[0]) + 1.5 * i)
+    elif name == 'Free':
+        for i in range(m):
+            out.append(args[0] + 3 * i)
     elif name == 'Tri':
         seed, step = (list(args) + [1])[:2]
         for i in range(m):
